@@ -1020,7 +1020,11 @@ writer_phase:
     if (P_C09 || P_C12 || P_C16) {
         in_writer_phase = 1;
         wexp_index_base = WBASE;
-        wexp_explore(&WCF, w, W, start >= WBASE ? start - WBASE : 0, "writer");
+        if (start < 2 * WBASE) wexp_explore(&WCF, w, W, start >= WBASE ? start - WBASE : 0, "writer");
+        /* single parametric operations (every integer width boundary, double patterns, every payload length 0..64 and longer ones) at
+         * every capacity: the same latching / reset / termination oracles after a failure at any byte of any token */
+        wexp_index_base = 2 * WBASE;
+        wexp_values(&WCF, w, W, start >= 2 * WBASE ? start - 2 * WBASE : 0, "writer", 64);
         in_writer_phase = 0;
     }
 }
